@@ -37,6 +37,7 @@ struct OpCounters
     mutable long calls = 0;
     mutable long fault_at = -1;
     mutable long fault_nonce = 0;
+    mutable int fault_kind = 0;      // dynamic type of the injected exception (see InjectedFault)
     mutable long set_shift_calls = 0;
     mutable long call_limit = -1;    // throw WorkBoundExceeded beyond this many applications (C13)
     mutable long bad_pointers = 0;   // null / overlapping operand pointers seen
@@ -45,7 +46,7 @@ struct OpCounters
     {
         calls++;
         if (fault_at > 0 && calls == fault_at)
-            throw InjectedFault{fault_nonce};
+            throw_injected_fault(fault_nonce, fault_kind);
         if (call_limit >= 0 && calls > call_limit)
             throw WorkBoundExceeded{calls};
     }
